@@ -297,7 +297,8 @@ def check_equiv(rep, rule, construct, what, code, spec, where="", eq=None, assum
         eq.bind(run, cls=fn.cls if fn else None)
     if run is not None and construct in run.P.functions and any(x[0] in ("after", "iter", "phi", "loopret") for x in walk(code)):
         cs = run.A.summary(construct)
-        code = subst(close_loops(cs, code), canon_params(cs)) if any(x[0] == "param" and x[1].startswith("#") for x in walk(code)) else close_loops(cs, code)
+        canonical = any(x[0] == "param" and x[1].startswith("#") for t_ in (code, spec) for x in walk(t_))
+        code = subst(close_loops(cs, code), canon_params(cs)) if canonical else close_loops(cs, code)
     eq.vocab_key = f"{rule}|{construct}|{key or what}"
     mism, rows = eq.compare(code, spec, assume=assume, alias=cond_alias, int_subjects=int_subjects)
     if os.environ.get("PRSA_RECORD_VOCAB"):
